@@ -5,6 +5,7 @@ import (
 	"context"
 	"errors"
 	"fmt"
+	"github.com/atlassian/gostatsd/pkg/stats"
 	"math/big"
 	"os"
 	"strings"
@@ -25,6 +26,7 @@ type cfg struct {
 	Advances         int
 	Slow             bool
 	Busy             bool // the flush itself consumes clock time (a fraction of / several intervals)
+	Subscriber       bool `json:",omitempty"` // a flush subscriber (what a backend's Run loop, the parser, a receiver are) registers and leaves again at any point
 	Failing          int  `json:",omitempty"` // one backend whose sends fail: 1 the first flush only, 2 every second flush, 3 every flush
 }
 
@@ -34,6 +36,9 @@ func (c cfg) String() string {
 	}
 	if c.Failing != 0 {
 		return fmt.Sprintf("i%v-o%v-s%d-a%d-failing%d", c.Interval, c.Offset, c.Start, c.Advances, c.Failing)
+	}
+	if c.Subscriber {
+		return fmt.Sprintf("i%v-o%v-s%d-a%d-subscriber", c.Interval, c.Offset, c.Start, c.Advances)
 	}
 	return fmt.Sprintf("i%v-o%v-s%d-a%d-slow%v", c.Interval, c.Offset, c.Start, c.Advances, c.Slow)
 }
@@ -141,6 +146,17 @@ func body(c cfg, r *run) func(*vsched.Exec) {
 		var backends []gostatsd.Backend
 		if c.Failing != 0 {
 			backends = []gostatsd.Backend{&failingBackend{r: r, pattern: c.Failing}}
+		}
+		if c.Subscriber {
+			st := stats.NewNullStatser()
+			ctx = stats.NewContext(ctx, st)
+			vsched.GoNamed("subscriber", func() {
+				ch, leave := st.RegisterFlush()
+				if vsched.Select(true, vsched.CaseRecv(ch)) == 0 {
+					vsched.SelRecv(ch)
+				}
+				leave()
+			})
 		}
 		fl := statsd.NewMetricFlusher(c.Interval, c.Offset, true, p, backends)
 		vsched.GoNamed("flusher", func() { fl.Run(ctx) })
@@ -252,6 +268,7 @@ func configs() []cfg {
 				// a backend that fails (the first flush / every second flush / always): the time reported to the
 				// aggregators must still be what has passed between the flushes
 				if st == starts[3] && off == 0 {
+					cs = append(cs, cfg{Interval: iv, Offset: off, Start: st, Advances: adv, Subscriber: true})
 					for f := 1; f <= 3; f++ {
 						cs = append(cs, cfg{Interval: iv, Offset: off, Start: st, Advances: adv, Failing: f})
 					}
